@@ -1,12 +1,12 @@
 SPECIFICATION Spec
 CONSTANTS
-  Contacts = {"c1"}
-  Kinds = {"good", "bad"}
-  OpKinds = {"en", "dis", "rs", "enq", "blk", "unb", "sent"}
-  MaxOps = 4
+  Contacts = {"c1", "c2", "c3"}
+  Kinds = {"good"}
+  OpKinds = {"enq"}
+  MaxOps = 3
   MaxSeed = 2
-  MaxLk = 3
-  MaxGen = 2
+  MaxLk = 5
+  MaxGen = 1
   WithRefused = FALSE
   ExitCancelsAny = TRUE
   OfferIgnoresCancel = TRUE
